@@ -121,6 +121,43 @@ class World:
     def derivative_alias_ok(self) -> bool:
         return all(self.deriv[p].dtype == self.prim[p].dtype and self.deriv[p].device == self.prim[p].device for p in self.prim)
 
+    def reused_objects(self, ctx: Ctx, trace: Any) -> None:
+        """C16 across dtypes: hedger and feature objects that LIVE THROUGH the history (used after every operation, with
+        whatever dtype the buffers had then) must give what freshly built ones give on the current buffers - dtype and values."""
+        from pfhedge.features import FeatureList
+        from pfhedge.nn import Hedger
+
+        class SumNet(torch.nn.Module):
+            def forward(self, x):
+                return x.sum(-1, keepdim=True)
+
+        feats = ["moneyness", "log_moneyness", "time_to_maturity", "max_moneyness", "underlier_spot", "prev_hedge"]
+        if not hasattr(self, "_kept"):
+            self._kept = {p: Hedger(SumNet(), list(feats)) for p in self.prim}
+        for p, prim in self.prim.items():
+            have = dict(prim.named_buffers())
+            if set(have) != {self.real(p, b) for b in BUFS[p]}:
+                continue
+            if len({b.dtype for b in have.values()}) != 1 or len({tuple(b.shape) for b in have.values()}) != 1:
+                continue
+            dt = next(iter(have.values())).dtype
+            d = self.deriv[p]
+            for name, fn in (("hedge", lambda h: h.compute_hedge(d)), ("P&L", lambda h: h.compute_pl(d))):
+                try:
+                    kept = fn(self._kept[p])
+                    fresh = fn(Hedger(SumNet(), list(feats)))
+                except RuntimeError as e:
+                    if dt in (torch.float16, torch.bfloat16):
+                        ctx.skip("half precision: backend does not implement an operation", 1)
+                        continue
+                    ctx.violation("dtype:reused:raises", f"{name} with a long-lived hedger raised RuntimeError on {NAME[dt]} buffers", {"error": str(e)[:200], "trace": trace})
+                    continue
+                ctx.count(n=1)
+                if kept.dtype != fresh.dtype or kept.dtype != dt:
+                    ctx.violation(f"dtype:reused:{name}", f"{name} of a hedger that was used with other dtypes before is {kept.dtype}; a fresh hedger gives {fresh.dtype} on {dt} buffers", {"primary": p, "trace": trace})
+                elif not torch.equal(kept.nan_to_num(), fresh.nan_to_num()):
+                    ctx.violation(f"history:reused:{name}", f"{name} of a hedger that was used with other dtypes / path counts before differs from a fresh hedger's on the same buffers", {"primary": p, "trace": trace})
+
     def computed_in(self, ctx: Ctx, trace: Any) -> None:
         """dtype of everything computed from an instrument == dtype of its buffers (when they are uniform)."""
         from pfhedge.nn import BlackScholes, EntropicRiskMeasure, Hedger
@@ -201,6 +238,8 @@ def replay_history(ctx: Ctx, rec: Dict[str, Any], computed: bool, variant: int =
         if not w.derivative_alias_ok():
             ctx.violation("dtype:derivative-alias", "a derivative's dtype/device differ from its underlier's", short)
             return
+        if computed:
+            w.reused_objects(ctx, short)
     if computed:
         w.computed_in(ctx, {"init": rec["init"], "ops": [[e["op"], e["p"], e["d"], e["how"], e["via"]] for e in rec["hist"]]})
 
